@@ -102,6 +102,10 @@ class Ctx(object):
         properties (else the check is broken: MachineryError).  With
         expect_violation=<name> the run must *find* that violation (as-shipped
         configurations, DESIGN section 7)."""
+        if expect_violation and workers == NCPU:
+            # deterministic search order: with many workers TLC may report a different first problem
+            # (another violation, or an evaluation error on a state explored concurrently) from run to run
+            workers = 1
         r = _tlc.run_tlc(module, cfg, self.work, workers=workers, env=env, extra=extra, timeout=timeout,
                          heap=heap, simulate=simulate, coverage=coverage)
         d = r.as_dict()
